@@ -286,6 +286,11 @@ impl C20 {
                     // the token was deployed by a pre-0.14 release: no by-spender index exists; the real
                     // migrate has to build it (old version strings with one- and two-digit minors)
                     let v = *h.rng.pick(&["0.9.1", "0.2.3", "0.13.4", "0.10.0", "0.8.0-rc.1", "0.13.0"]);
+                    if h.idx % 2 == 0 {
+                        // the upgrade comes late: the grants with a deadline have lapsed by then (they stay listed)
+                        c.advance(6000, 30_000);
+                        h.out.count("migrations_with_lapsed_grants_in_the_table");
+                    }
                     let keys: Vec<Vec<u8>> = c.dump(&t).into_iter().map(|kv| kv.0).filter(|k| k.windows(17).any(|w| w == b"allowance_spender")).collect();
                     for k in keys {
                         let _ = c.sudo(&t, &crate::chain::RawSudo::Remove { key: cosmwasm_std::Binary::from(k) });
@@ -704,7 +709,7 @@ impl Monitor for C20 {
         (LISTINGS.len() * SIZES.len()) as u64 + tier.pick(160, 60_000)
     }
     fn mandatory(&self) -> Vec<&'static str> {
-        let mut v = vec!["walks_completed", "walks_with_default_limit", "walks_with_limit_above_max", "walks_with_limit_zero", "states_with_more_than_30_items", "states_with_no_items", "listings_with_expired_entries_interleaved", "listings_after_removals", "listings_after_migration_from_pre_0_14", "listings_with_a_contiguous_run_of_30_or_more_expired_entries", "walks_continued_from_a_removed_item"];
+        let mut v = vec!["walks_completed", "walks_with_default_limit", "walks_with_limit_above_max", "walks_with_limit_zero", "states_with_more_than_30_items", "states_with_no_items", "listings_with_expired_entries_interleaved", "listings_after_removals", "listings_after_migration_from_pre_0_14", "listings_with_a_contiguous_run_of_30_or_more_expired_entries", "walks_continued_from_a_removed_item", "migrations_with_lapsed_grants_in_the_table"];
         v.extend([
             "listing_cw20.AllAccounts",
             "listing_cw20.AllAllowances",
